@@ -506,7 +506,7 @@ func (e *Env) singleSentinelSeen(bld *ir.Builder, v ssa.Value, depth int, seen m
 	case *ssa.Call:
 		callee := x.Call.StaticCallee()
 		if callee == nil {
-			return e.handedErrorSource(x)
+			return e.moduleErrorSource(x)
 		}
 		if callee.String() == "github.com/goark/errs.Wrap" {
 			if len(x.Call.Args) == 0 {
@@ -532,6 +532,27 @@ func (e *Env) singleSentinelSeen(bld *ir.Builder, v ssa.Value, depth int, seen m
 
 func (e *Env) moduleErrorSource(call *ssa.Call) bool {
 	callee := call.Call.StaticCallee()
+	if callee == nil && call.Call.IsInvoke() {
+		// a method called through an interface or a type parameter whose method set has an unexported method of
+		// the metric packages: only types of that package can implement it, so the method called is one of the
+		// package's own functions
+		var iface *types.Interface
+		switch t := call.Call.Value.Type().(type) {
+		case *types.TypeParam:
+			iface, _ = t.Constraint().Underlying().(*types.Interface)
+		default:
+			iface, _ = t.Underlying().(*types.Interface)
+		}
+		if iface != nil {
+			for i := 0; i < iface.NumMethods(); i++ {
+				m := iface.Method(i)
+				if !m.Exported() && m.Pkg() != nil && (isMetricPkg(m.Pkg().Path()) || load.IsInternal(m.Pkg().Path())) {
+					return true
+				}
+			}
+		}
+		return false
+	}
 	if callee == nil {
 		return e.handedErrorSource(call)
 	}
@@ -1389,6 +1410,14 @@ func (e *Env) writeOwnership(v *spec.Version, ls []*facts.Level) {
 				okWriter := obj != nil && (obj == l.DecodeOne || obj == e.P.LookupFunc(v.Pkg, "New"+l.Spec.Name))
 				if fv == l.VerField && obj != nil && obj.Name() == "Decode" {
 					okWriter = true // checked by version-recorded
+				}
+				if fv == l.VerField && !okWriter && (obj != nil || fn.Parent() != nil || fn.Origin() != nil) {
+					// a helper that runs only for the Decode methods (one shared decode procedure) records the version
+					// in their name; what it records is checked where Decode is analysed (version-recorded)
+					okWriter = e.privateTo(fn, func(c *ssa.Function) bool {
+						co, _ := c.Object().(*types.Func)
+						return co != nil && co.Name() == "Decode" && c.Signature.Recv() != nil && isMetricPkg(co.Pkg().Path())
+					})
 				}
 				if !okWriter && (obj != nil || fn.Parent() != nil) {
 					// a helper that runs only on behalf of this level's decodeOne/constructor writes in their name
